@@ -28,6 +28,9 @@ type C08Op struct {
 type C08Case struct {
 	RootSeed uint64  `json:"root_seed"`
 	Ops      []C08Op `json:"ops"`
+	// Strict: report the known finding "blockbuilder-reuse" (KNOWN_FINDINGS.txt) instead of stepping
+	// around it; set by the committed corpus case that reproduces it, never by the generator
+	Strict bool `json:"strict,omitempty"`
 }
 
 type c08Snap struct {
@@ -50,12 +53,14 @@ type c08Builder struct {
 	bb      biscuit.BlockBuilder
 	parent  int
 	content m.Block
+	built   int // how many times Build was called on it
 }
 
 type c08Block struct {
 	blk     *biscuit.Block
 	parent  int
 	content m.Block
+	reused  bool // returned by a second or later Build of its builder
 }
 
 // fresh content: every action uses symbols nobody else uses
@@ -182,12 +187,39 @@ func checkC08(c C08Case, rec *obs.Recorder) *obs.Violation {
 
 	first := m.Block{Facts: []m.Pred{c08Fact("root", 0), c08Fact("root", 1)}, Checks: []m.Check{c08Check("root", 0)}}
 	hist = append(hist, "build")
-	tok, err := bridge.BuildAuthority(priv, rng, first, nil)
+	// the root builder stays alive: content added to it after Build must not reach the tokens it
+	// has built, and building again gives a token with everything added so far
+	rootB := biscuit.NewBuilder(priv, biscuit.WithRNG(rng))
+	rootContent := first
+	for _, f := range first.Facts {
+		if err := rootB.AddAuthorityFact(bridge.ToFact(f)); err != nil {
+			return obs.Violf("build: %v", err)
+		}
+	}
+	for _, ch := range first.Checks {
+		if err := rootB.AddAuthorityCheck(bridge.ToCheck(ch)); err != nil {
+			return obs.Violf("build: %v", err)
+		}
+	}
+	tok, err := rootB.Build()
 	if err != nil {
 		return obs.Violf("build: %v", err)
 	}
 	if v := addTok(tok, []m.Block{first}, false, "build"); v != nil {
 		return v
+	}
+	// known finding "blockbuilder-reuse": a BlockBuilder that is used again after Build. The search
+	// steps around each manifestation (counted) so that everything else keeps being explored.
+	knownReuse := func(what string) *obs.Violation {
+		rec.Count("known_blockbuilder_reuse_stepped_around", 1)
+		rec.Label("known:blockbuilder-reuse")
+		if c.Strict {
+			return obs.ViolK("blockbuilder-reuse", "history [%s]: %s", strings.Join(hist, "; "), what)
+		}
+		return nil
+	}
+	copyBlock := func(b m.Block) m.Block {
+		return m.Block{Facts: append([]m.Pred{}, b.Facts...), Rules: append([]m.Rule{}, b.Rules...), Checks: append([]m.Check{}, b.Checks...), Context: b.Context}
 	}
 
 	for step, op := range c.Ops {
@@ -207,6 +239,43 @@ func checkC08(c C08Case, rec *obs.Recorder) *obs.Violation {
 				return obs.Violf("history [%s]: build: %v", strings.Join(hist, "; "), err)
 			}
 			if v := addTok(tok, []m.Block{b}, false, "build"); v != nil {
+				return v
+			}
+		case "rootAdd":
+			hist = append(hist, fmt.Sprintf("%d:rootAdd(kind%d)", step, op.Kind))
+			switch op.Kind {
+			case 0:
+				f := c08Fact(tag, 0)
+				if err := rootB.AddAuthorityFact(bridge.ToFact(f)); err != nil {
+					return obs.Violf("history [%s]: AddAuthorityFact: %v", strings.Join(hist, "; "), err)
+				}
+				rootContent = copyBlock(rootContent)
+				rootContent.Facts = append(rootContent.Facts, f)
+			case 1:
+				r := c08Rule(tag, 0)
+				if err := rootB.AddAuthorityRule(bridge.ToRule(r)); err != nil {
+					return obs.Violf("history [%s]: AddAuthorityRule: %v", strings.Join(hist, "; "), err)
+				}
+				rootContent = copyBlock(rootContent)
+				rootContent.Rules = append(rootContent.Rules, r)
+			default:
+				ch := c08Check(tag, 0)
+				if err := rootB.AddAuthorityCheck(bridge.ToCheck(ch)); err != nil {
+					return obs.Violf("history [%s]: AddAuthorityCheck: %v", strings.Join(hist, "; "), err)
+				}
+				rootContent = copyBlock(rootContent)
+				rootContent.Checks = append(rootContent.Checks, ch)
+			}
+		case "rebuild":
+			if len(toks) >= 9 {
+				continue
+			}
+			hist = append(hist, fmt.Sprintf("%d:rebuild->t%d", step, len(toks)))
+			nt, err := rootB.Build()
+			if err != nil {
+				return obs.Violf("history [%s]: Build on the root builder: %v", strings.Join(hist, "; "), err)
+			}
+			if v := addTok(nt, []m.Block{copyBlock(rootContent)}, false, "rebuild"); v != nil {
 				return v
 			}
 		case "grow", "fork":
@@ -270,26 +339,32 @@ func checkC08(c C08Case, rec *obs.Recorder) *obs.Violation {
 				continue
 			}
 			hist = append(hist, fmt.Sprintf("%d:add(b%d,kind%d,n%d)", step, j, op.Kind, 1+op.N))
-			for k := 0; k <= op.N; k++ {
+			for k := 0; k <= op.N && bd.bb != nil; k++ {
+				var err error
 				switch op.Kind {
 				case 0:
 					f := c08Fact(tag, k)
-					if err := bd.bb.AddFact(bridge.ToFact(f)); err != nil {
-						return obs.Violf("history [%s]: AddFact: %v", strings.Join(hist, "; "), err)
-					}
+					err = bd.bb.AddFact(bridge.ToFact(f))
 					bd.content.Facts = append(bd.content.Facts, f)
 				case 1:
 					r := c08Rule(tag, k)
-					if err := bd.bb.AddRule(bridge.ToRule(r)); err != nil {
-						return obs.Violf("history [%s]: AddRule: %v", strings.Join(hist, "; "), err)
-					}
+					err = bd.bb.AddRule(bridge.ToRule(r))
 					bd.content.Rules = append(bd.content.Rules, r)
 				default:
 					ch := c08Check(tag, k)
-					if err := bd.bb.AddCheck(bridge.ToCheck(ch)); err != nil {
-						return obs.Violf("history [%s]: AddCheck: %v", strings.Join(hist, "; "), err)
-					}
+					err = bd.bb.AddCheck(bridge.ToCheck(ch))
 					bd.content.Checks = append(bd.content.Checks, ch)
+				}
+				if err != nil {
+					if bd.built > 0 {
+						// known finding "blockbuilder-reuse": the builder is abandoned, the history goes on
+						if v := knownReuse(fmt.Sprintf("adding fresh content to a BlockBuilder after Build fails: %v", err)); v != nil {
+							return v
+						}
+						bd.bb = nil
+						continue
+					}
+					return obs.Violf("history [%s]: adding fresh content to a builder: %v", strings.Join(hist, "; "), err)
 				}
 			}
 		case "buildBlock":
@@ -302,8 +377,23 @@ func checkC08(c C08Case, rec *obs.Recorder) *obs.Violation {
 				continue
 			}
 			hist = append(hist, fmt.Sprintf("%d:buildBlock(b%d)->k%d", step, j, len(blocks)))
-			blocks = append(blocks, &c08Block{blk: bd.bb.Build(), parent: bd.parent, content: bd.content})
-			bd.bb = nil // a builder is consumed by Build
+			// the builder stays alive: what is added to it later belongs to later blocks only
+			blk, pan := func() (blk *biscuit.Block, pan any) {
+				defer func() { pan = recover() }()
+				return bd.bb.Build(), nil
+			}()
+			if pan != nil {
+				if bd.built > 0 {
+					if v := knownReuse(fmt.Sprintf("a second Build on one BlockBuilder panics: %v", pan)); v != nil {
+						return v
+					}
+					bd.bb = nil
+					continue
+				}
+				return obs.Violf("history [%s]: BlockBuilder.Build panicked: %v", strings.Join(hist, "; "), pan)
+			}
+			blocks = append(blocks, &c08Block{blk: blk, parent: bd.parent, content: copyBlock(bd.content), reused: bd.built > 0})
+			bd.built++
 		case "append":
 			if len(blocks) == 0 || len(toks) >= 9 {
 				continue
@@ -317,10 +407,34 @@ func checkC08(c C08Case, rec *obs.Recorder) *obs.Violation {
 			hist = append(hist, fmt.Sprintf("%d:append(k%d to t%d)->t%d", step, k, bl.parent, len(toks)))
 			nt, err := parent.tok.Append(rng, bl.blk)
 			if err != nil {
+				if bl.reused {
+					if v := knownReuse(fmt.Sprintf("a block from the second Build of one BlockBuilder cannot be appended: %v", err)); v != nil {
+						return v
+					}
+					hist = hist[:len(hist)-1]
+					continue
+				}
 				return obs.Violf("history [%s]: Append failed: %v", strings.Join(hist, "; "), err)
 			}
 			derivations[bl.parent]++
 			model := append(append([]m.Block{}, parent.model...), bl.content)
+			if bl.reused {
+				// known finding "blockbuilder-reuse": a block from a second Build may not hold what its
+				// caller put in; such a token is left out of the family, everything else is still checked
+				ok := false
+				if ser, err := nt.Serialize(); err == nil {
+					if _, got, err := decodeContent(ser); err == nil && len(got) == len(model) {
+						ok = got[len(got)-1].ContentKey() == bl.content.Postfix().ContentKey()
+					}
+				}
+				if !ok {
+					if v := knownReuse("the block returned by the second Build of one BlockBuilder does not hold what was added to the builder"); v != nil {
+						return v
+					}
+					hist = hist[:len(hist)-1]
+					continue
+				}
+			}
 			if v := addTok(nt, model, false, fmt.Sprintf("append k%d to t%d", k, bl.parent)); v != nil {
 				return v
 			}
@@ -425,7 +539,7 @@ func drawC08(t *rapid.T) C08Case {
 	c := C08Case{RootSeed: rapid.Uint64Range(1, 1<<16).Draw(t, "root")}
 	n := rapid.IntRange(4, 28).Draw(t, "steps")
 	ops := []string{"createBlock", "createBlock", "add", "add", "add", "buildBlock", "buildBlock", "append", "append", "append",
-		"seal", "reload", "getBlockID", "authorize", "print", "build", "grow", "grow", "grow", "fork", "fork"}
+		"seal", "reload", "getBlockID", "authorize", "print", "build", "grow", "grow", "grow", "fork", "fork", "rootAdd", "rootAdd", "rebuild"}
 	for i := 0; i < n; i++ {
 		c.Ops = append(c.Ops, C08Op{
 			Op:   rapid.SampledFrom(ops).Draw(t, "op"),
